@@ -286,7 +286,7 @@ for _c in 'abcdefghijklmnopqrstuvwxyzABCDEFGHIJKLMNOPQRSTUVWXYZ':
     DEFAULT[_c] = 11
 
 PRE_B = ('\\newcommand{\\zzm}[1]{\\gamma #1\\delta }\\newcommand{\\zzR}{\\ifmmode\\beta \\else$\\beta $\\fi}'
-         '\\newcommand{\\zzx}{ab}\\begin{document}\n\n')
+         '\\newcommand{\\zzx}{ab}\\newtheorem{zzt}{Theorem}\\begin{document}\n\n')
 PRE_B_AMS = '\\usepackage{amsmath}' + PRE_B
 
 LEAVES = ['x', '\\alpha ', '<', '>', "y'", '\\,', '\\quad ', '2', '\\sqrt x']
@@ -296,6 +296,41 @@ BINARY = ['supsub', 'subsup', 'frac', 'sqrtn', 'arr', 'jux']
 CONTEXTS = ['dollar', 'paren', 'bracket', 'equation', 'textbf', 'ddollar']
 # further containers, explored one level less deep: \begin{math}, \begin{displaymath}, a cell of eqnarray*, a cell of align
 # plus \ensuremath{..} in text, two adjacent inline formulas $..$$x$, and the per-cell source of eqnarray (image generator)
+# Position dimension: the formula container directly after a command / environment opening that takes an optional [..]
+# argument (the formula must not be read as that argument).  name -> (text before, text after, inline containers only)
+AFTER = {
+    'item': ('\\begin{itemize}\\item', '\\end{itemize}', False),
+    'item_sp': ('\\begin{itemize}\\item ', '\\end{itemize}', False),
+    'item_nl': ('\\begin{enumerate}\\item\n', '\\end{enumerate}', False),
+    'descitem': ('\\begin{description}\\item ', '\\end{description}', False),
+    'br': ('We have\\\\\n', '', False),
+    'brstar': ('We have\\\\*\n', '', False),
+    'linebreak': ('w\\linebreak ', '', False),
+    'nolinebreak': ('w\\nolinebreak\n', '', False),
+    'pagebreak': ('w\\pagebreak ', '', False),
+    'nopagebreak': ('w\\nopagebreak ', '', False),
+    'figure': ('\\begin{figure}', '\\end{figure}', False),
+    'table': ('\\begin{table}', '\\end{table}', False),
+    'theorem': ('\\begin{zzt}', '\\end{zzt}', False),
+    'center': ('\\begin{center}a\\\\ ', '\\end{center}', False),
+    'tabular': ('\\begin{tabular}{l}a\\\\ ', '\\\\ b\\end{tabular}', True),
+}
+AFTER_CONTAINERS = ['bracket', 'paren', 'dollar', 'envdisplay', 'envmath', 'equation', 'ddollar', 'textbf']
+INLINE_CONTAINERS = ('paren', 'dollar', 'envmath', 'textbf')
+
+
+def after_contexts():
+    return ['after/%s/%s' % (p, c) for p in AFTER for c in AFTER_CONTAINERS if c in INLINE_CONTAINERS or not AFTER[p][2]]
+
+
+def split_ctx(ctx):
+    """'after/<position>/<container>' -> (position, container); a plain container -> (None, container)"""
+    if ctx.startswith('after/'):
+        _, p_, c_ = ctx.split('/')
+        return p_, c_
+    return None, ctx
+
+
 CONTEXTS2 = ['envmath', 'envdisplay', 'eqnarray', 'align', 'ensure', 'dollar2', 'eqncell']
 CELL_CONTEXTS = ('eqnarray', 'align', 'eqncell')
 EMPTY_CONTEXTS = ('paren', 'bracket', 'equation', 'envmath', 'envdisplay')     # containers that can hold an empty formula
@@ -499,6 +534,9 @@ def count_op(d, op, fam='L'):
 
 
 def wrap(ctx, f):
+    pos, c = split_ctx(ctx)
+    if pos:
+        return AFTER[pos][0] + wrap(c, f) + AFTER[pos][1]
     if ctx == 'dollar':
         return '$%s$' % f
     if ctx == 'paren':
@@ -537,6 +575,7 @@ def toks(s):
 def expected_from_print(ctx, f):
     """(source tokens, mathjax_source tokens) for the printed formula f: inline formulas are reconstructed between
     $ $ (mathjax: \\( \\)), displays between \\[ \\], equation keeps its \\begin/\\end; mathjax maps < > to \\lt \\gt"""
+    ctx = split_ctx(ctx)[1]
     if ctx in ('dollar', 'paren', 'textbf', 'envmath', 'dollar2'):
         src = '$%s$' % f
         mj = '\\(%s\\)' % f
@@ -560,6 +599,7 @@ def expected_from_print(ctx, f):
 def prx(ctx, t, dev=''):
     """expanded print of t as it stands in container ctx (a cell of eqnarray / align is an array cell; the content of
     \\ensuremath in running text is normalized with the paragraph: same exposure to rule c)"""
+    ctx = split_ctx(ctx)[1]
     return pr(t, True, dev, ctx in CELL_CONTEXTS or ctx == 'ensure')
 
 
@@ -576,6 +616,7 @@ MATHTAGS = ('math', 'displaymath', 'equation', 'eqnarray', 'align', 'ensuremath'
 def b_observe(ctx, ts):
     """one document with one paragraph per formula -> ([(source tokens, mathjax tokens)...], context depth) or 'raises:..'"""
     src = (PRE_B_AMS if ctx == 'align' else PRE_B) + ''.join('x %s y\n\n' % wrap(ctx, pr(t)) for t in ts)
+    ctx = split_ctx(ctx)[1]
     try:
         doc = parse_doc(src, 20.0 + 0.02 * len(ts))
         out = []
@@ -672,7 +713,7 @@ def b_judge(ctx, t):
     if not isinstance(obs, str) and len(obs[0]) == 1 and obs[1] == 2:
         v, fids, detail = b_classify(ctx, t, obs[0][0])
         return v, fids, exp, obs, detail
-    if text_in_dollar(t, ctx in ('dollar', 'textbf')):
+    if text_in_dollar(t, split_ctx(ctx)[1] in ('dollar', 'textbf')):
         return 'known', [FID_TEXT], exp, obs, ('\\text is not a box command: a $ inside \\text{} that is itself inside $...$ '
                                                'closes the outer formula; resulting structure not modelled')
     return 'violation', [], exp, obs, 'formula node missing / document structure or group depth wrong'
@@ -687,7 +728,7 @@ def b_run_block(block):
     _, ctx, d, op, lo, hi, fam = block
     rep = core.Report()
     ts = list(itertools.islice(trees_op(d, op, fam), lo, hi))
-    inline = ctx in ('dollar', 'textbf')
+    inline = split_ctx(ctx)[1] in ('dollar', 'textbf')
     suspects = [t for t in ts if text_in_dollar(t, inline)]
     normal = [t for t in ts if not text_in_dollar(t, inline)]
 
@@ -698,6 +739,8 @@ def b_run_block(block):
             rep.count('b_unbraced_spelling')
         if fam == 'X':
             rep.count('b_mode_and_extra')
+        if ctx.startswith('after/'):
+            rep.count('b_after_optional_argument')
         case = {'part': 'b', 'ctx': ctx, 'tree': t}
         if v == 'known':
             for fid in fids:
@@ -865,6 +908,15 @@ def run(tier, seed, rep):
                         blocks.append(('b', ctx, d, op, lo, min(n, lo + 2000), fam))
     for ctx in EMPTY_CONTEXTS:
         blocks.append(('b', ctx, 1, 'leaf', 0, 1, 'E'))
+    actx = after_contexts()
+    for ctx in actx:
+        for fam in ('L', 'S', 'X'):
+            blocks.append(('b', ctx, 1, 'leaf', 0, len(leaves(fam)), fam))
+        if not quick:
+            for op in UNARY + BINARY:
+                blocks.append(('b', ctx, 2, op, 0, count_op(2, op, 'L'), 'L'))
+    bounds['b_after_optional_argument'] = {'positions': sorted(AFTER), 'containers': AFTER_CONTAINERS, 'contexts': len(actx),
+                                           'max_depth': 1 if quick else 2}
     bounds['b_formulas'] = {'max_depth': D, 'contexts': CONTEXTS, 'extra_context_ddollar_max_depth': 3,
                             'leaves': len(LEAVES), 'unary': len(UNARY), 'binary': len(BINARY),
                             'unbraced_spelling_atoms': len(SPELL), 'unbraced_spelling_max_depth': D - 1,
@@ -876,7 +928,7 @@ def run(tier, seed, rep):
     return {'exhaustive': not abandoned, 'bounds': bounds, 'blocks': len(blocks),
             'floors': {'evaluations': 900000 if quick else 15000000, 'a_with_partial_end_marker': 100000,
                        'b_op_arr': 1000, 'b_op_mbox': 1000, 'b_op_zzm': 1000, 'b_op_sqrtn': 1000,
-                       'b_unbraced_spelling': 5000, 'b_mode_and_extra': 5000}}
+                       'b_unbraced_spelling': 5000, 'b_mode_and_extra': 5000, 'b_after_optional_argument': 5000}}
 
 
 RULE = ('(a) bodies = strings over 16 characters (\\ { } % # & $ ^ ~ blank newline ` - e n d) + 4 composite symbols (\\end, '
@@ -887,7 +939,7 @@ RULE = ('(a) bodies = strings over 16 characters (\\ { } % # & $ ^ ~ blank newli
         'length <= 3 (4) over the alphabet extended by end{NAME} (no escape character) and the command form \\endNAME that contain one of the two; bodies of length <= 2 (3) in a user environment \\newenvironment{zzv}{\\verbatim}{\\endverbatim}. Observed: node.textContent, text after the construct '
         '(x--..y--%c: dash ligature applied, comment skipped), context depth, verb.source. (b) formula trees of depth '
         '<= 3 (4): 9 leaves, 9 unary and 6 binary operators (binary: all leaf pairs at depth 2, deeper one full child and '
-        'one representative sibling, both orders), plus the same operators to depth 2 (3) over 57 unbraced-argument spellings (\\frac, \\stackrel x {braced, letter, digit}^2; \\sqrt, \\hat, \\bar, \\mathbf, \\sqrt[3], \\sqrt[n] x 3; scripts z^a_b both orders x 9; \\zzm x), plus the same operators to depth 2 (3) over 34 further atoms: mode-sensitive material (user macro with \\ifmmode, bare \\ifmmode, \\ensuremath) standing in the formula and inside \\mbox/\\text/\\textbf/\\textrm within it -- the operators box>formula put them at every depth of formula>box>formula>box and the oracle expands them by the mode TeX is in --, a multi-token user macro as unbraced argument (9 positions), arrays with an empty row (3), \\left< \\big<, ligature triggers a--b a---b f\'\' and a~b; in $ $, \\( \\), \\[ \\], equation, \\textbf{..$ $..} (and $$ $$ to depth 3); one level less deep in \\begin{math}, \\begin{displaymath}, a cell of eqnarray (whole source and per-cell source) and of align, \\ensuremath{..} in text, adjacent $..$$x$; the empty formula in 5 containers; '
+        'one representative sibling, both orders), plus the same operators to depth 2 (3) over 57 unbraced-argument spellings (\\frac, \\stackrel x {braced, letter, digit}^2; \\sqrt, \\hat, \\bar, \\mathbf, \\sqrt[3], \\sqrt[n] x 3; scripts z^a_b both orders x 9; \\zzm x), plus the same operators to depth 2 (3) over 34 further atoms: mode-sensitive material (user macro with \\ifmmode, bare \\ifmmode, \\ensuremath) standing in the formula and inside \\mbox/\\text/\\textbf/\\textrm within it -- the operators box>formula put them at every depth of formula>box>formula>box and the oracle expands them by the mode TeX is in --, a multi-token user macro as unbraced argument (9 positions), arrays with an empty row (3), \\left< \\big<, ligature triggers a--b a---b f\'\' and a~b; in $ $, \\( \\), \\[ \\], equation, \\textbf{..$ $..} (and $$ $$ to depth 3); one level less deep in \\begin{math}, \\begin{displaymath}, a cell of eqnarray (whole source and per-cell source) and of align, \\ensuremath{..} in text, adjacent $..$$x$; the empty formula in 5 containers; every atom of the three leaf families (thorough: also every depth-2 tree) in each of 8 containers placed directly after a command or environment opening that takes an optional [..] argument (15 positions: \\item with nothing / blank / newline before the formula, description \\item, \\\\ and \\\\* in text, center and tabular, \\linebreak, \\nolinebreak, \\pagebreak, \\nopagebreak, figure, table, a \\newtheorem environment; display containers not in tabular): the formula node must exist with the printed source; '
         'source and mathjax_source re-tokenized with the reference lexer, blanks dropped, compared with the printed formula '
         '(user macro expanded on the tree). Non-trivial: non-empty body / depth >= 2; distinct = distinct (construct, '
         'delimiter, body) or (context, formula); outcomes = distinct observed contents / token streams')
